@@ -6,14 +6,16 @@ the hand-written lattice model `Model/Lattices/Planar2DCode.lean` (tied to
 commute, whose logicals commute with the stabilizers and anticommute with each other;
 `n = Lx·Ly + (Lx−1)(Ly−1)`, `k = 1`; `get_deformation` follows the stated rule at every location.
 
-Rank clause, for all sizes, at the operator level: the generators at all stabilizer locations are independent
-(`IndepGenerators`: every non-empty sub-family has a Pauli operator on the qubits that
-anticommutes with an odd number of its members, hence with their product), and there are exactly
-`n − k` of them.  What is NOT proved here is the translation of this operator-level statement into
-`finrank (span rows) = n − k` over `ZMod 2` (it needs the bridge `opAntiCount` ↔ symplectic form,
-bilinearity, and the generic upper bound of `Properties/C01.lean`); the matrix-level rank is
-covered per instance by the kernel-checked tables of `Properties/C01.lean`.
+Rank clause, for all sizes: the generators at all stabilizer locations are independent (`generators_independent`, via a
+triangular family of single-qubit probes) and there are exactly `n − k` of them
+(`generators_count`).  `valid_code` puts everything together through the generic bridge
+`Proofs/Lat2DBridgeB.lean` (`symp (to_bsf a) (to_bsf b) = opAntiCount a b mod 2` for dicts with
+distinct keys; independent sub-family of `n − k` commuting rows ⇒ GF(2) rank `n − k`): the matrices
+that `stabilizer_matrix`, `logicals_x`, `logicals_z` of the generic code model (`Model/Code.lean`,
+C02) assemble from this lattice model form a valid `[[n, k]]` stabilizer code (`ValidCodeL`: all
+four clauses of C01, rank included) for EVERY size of the family.
 -/
+import PanqecVerif.Proofs.Lat2DBridgeB
 import PanqecVerif.Proofs.LatPlanar2DCodeRank
 
 namespace Panqec.C01Planar2DCode
@@ -60,6 +62,20 @@ theorem generators_count (Lx Ly : Nat) (hx : 1 ≤ Lx) (hy : 1 ≤ Ly) :
     omega
   show (stabs Lx Ly).length + 1 = (qubits Lx Ly).length
   omega
+
+/-- THE C01 STATEMENT FOR ALL SIZES (`Lx, Ly ≥ 1`): `stabilizer_matrix`, `logicals_x`, `logicals_z` of
+    the generic code model, applied to this lattice model, return (no `KeyError`) matrices that
+    form a valid `[[n, k]]` stabilizer code: generators pairwise commute, logicals commute with
+    the generators, `ω(X_i, Z_j) = δ_ij`, `ω(X_i, X_j) = ω(Z_i, Z_j) = 0`, and the generators
+    have GF(2) rank `n − k` -/
+theorem valid_code (Lx Ly : Nat) (hx : 1 ≤ Lx) (hy : 1 ≤ Ly) :
+    stabilizerMatrix (lattice Lx Ly).toCodeData = some (matH (lattice Lx Ly)) ∧
+    logicalsX (lattice Lx Ly).toCodeData = some (matX (lattice Lx Ly)) ∧
+    logicalsZ (lattice Lx Ly).toCodeData = some (matZ (lattice Lx Ly)) ∧
+    ValidCodeL (lattice Lx Ly).toCodeData.n (lattice Lx Ly).toCodeData.k
+      (matH (lattice Lx Ly)) (matX (lattice Lx Ly)) (matZ (lattice Lx Ly)) :=
+  validCode_of_lattice (lattice Lx Ly) (wf Lx Ly hx hy) (commPair Lx Ly hx hy)
+    (lattice Lx Ly).stabs (List.Sublist.refl _) (generators_independent Lx Ly) (generators_count Lx Ly hx hy)
 
 /-- `is_qubit` in closed form -/
 theorem isQubit_rule (Lx Ly : Nat) (x y : Int) :
@@ -125,5 +141,7 @@ example : (lattice 3 2).toCodeData.n = 8 := by decide
 example : getDeformation "XZZX" "y" [2, 1] = some PauliMap.swapXZ := by decide
 example : IndepGenerators (lattice 3 2) (lattice 3 2).stabs := generators_independent 3 2
 example : (lattice 3 2).stabs.length = 7 := by decide
+example : ValidCodeL 8 1 (matH (lattice 3 2)) (matX (lattice 3 2)) (matZ (lattice 3 2)) :=
+  (valid_code 3 2 (by decide) (by decide)).2.2.2
 
 end Panqec.C01Planar2DCode
